@@ -92,6 +92,12 @@ pub fn gen_schema(t: &mut Tape, o: &SchemaOpts) -> RSchema {
                 member_of.push(p.clone());
             }
         }
+        // an enumerated type may be a parent type as well (its entities have no parents themselves)
+        if let Some(ei) = enum_ix {
+            if t.bool_p(1, 4) {
+                member_of.push(names[ei].clone());
+            }
+        }
         let attrs = gen_attrs(t, 2, &names, o, 4);
         let tags = if o.allow_tags && t.bool_p(1, 3) {
             Some(match t.upto(5) {
@@ -263,7 +269,11 @@ pub fn gen_world(t: &mut Tape, s: &RSchema) -> World {
             // occasionally a parent without a record
             if !e.member_of.is_empty() && t.bool_p(1, 12) {
                 let pt = &e.member_of[t.upto(e.member_of.len())];
-                d.parents.insert(Uid { ty: pt.clone(), id: "q\"x".into() });
+                let id = match s.et(pt).and_then(|x| x.enum_ids.clone()) {
+                    Some(ids) => ids[t.upto(ids.len())].clone(),
+                    None => "q\"x".to_string(),
+                };
+                d.parents.insert(Uid { ty: pt.clone(), id });
             }
         }
         w.entities.insert(u.clone(), d);
@@ -390,6 +400,18 @@ pub fn is_simple(ty: &RType) -> bool {
         RType::Set(el) => is_simple(el),
         _ => true,
     }
+}
+
+/// is the access path `a` a proper prefix of the access path `b` (as attribute chains)?
+fn is_proper_prefix(a: &E, b: &E) -> bool {
+    let mut cur = b;
+    while let E::GetAttr(inner, _) = cur {
+        if format!("{:?}", inner) == format!("{:?}", a) {
+            return true;
+        }
+        cur = inner;
+    }
+    false
 }
 
 fn conj(mut gs: Vec<E>, last: E) -> E {
@@ -672,8 +694,24 @@ impl<'a> TGen<'a> {
                             self.uses_optional = true;
                         }
                         self.max_derefs = self.max_derefs.max(p.derefs);
-                        let cmp = E::Bin(BinOp::In, b(e), b(p.e));
-                        return if p.guards.is_empty() { cmp } else { conj(p.guards, cmp) };
+                        let mut guards = p.guards.clone();
+                        let mut cmp = E::Bin(BinOp::In, b(e.clone()), b(p.e.clone()));
+                        if t.coin() {
+                            // a second membership test of the same subject, preferably against a path that extends the first
+                            // one (`x in r.team || x in r.team.parent`): the requested ancestors of `x` then form a trie with
+                            // a requested node that is also an inner node
+                            let ext: Vec<usize> = targets.iter().copied().filter(|i| is_proper_prefix(&p.e, &self.paths[*i].e)).collect();
+                            let pool = if ext.is_empty() { &targets } else { &ext };
+                            let p2 = self.paths[pool[t.upto(pool.len())]].clone();
+                            guards.extend(p2.guards.clone());
+                            self.max_derefs = self.max_derefs.max(p2.derefs);
+                            let second = E::Bin(BinOp::In, b(e), b(p2.e));
+                            cmp = if t.coin() { E::Or(b(cmp), b(second)) } else { E::And(b(second), b(cmp)) };
+                        }
+                        if !guards.is_empty() {
+                            self.uses_optional = true;
+                        }
+                        return if guards.is_empty() { cmp } else { conj(guards, cmp) };
                     }
                 }
                 let literal_subject = matches!(e, E::Lit(_)) && LEVEL_FRIENDLY.with(|c| c.get());
